@@ -1995,6 +1995,10 @@ class Evaluator:
                     if m is not None:
                         r = self.truth(self.call_function(FuncV(m, None, x, ci), [y], {}, node))
                         return r if sym == "==" else negate(r)
+                    if isinstance(y, Const) and any(str(b_) in ("str", "int") for b_ in ci.bases) and isinstance(x.value, Const):
+                        # a member of an Enum with a str / int mixin IS a str / int: it equals the plain value (a plain Enum member does not)
+                        r = x.value.value == y.value
+                        return Const(r if sym == "==" else not r)
                 if isinstance(x, Obj):
                     m = x.cls.find_method("__eq__")
                     if m is not None:
